@@ -5,6 +5,7 @@ import Balm.Impl.Asp
 import Balm.DepthAlgo
 import Balm.Impl.CandModel
 import Balm.Impl.SkipExcl
+import Balm.Impl.Nfvs
 import Balm.TransNet
 /-!
 # `balmdriver` – line protocol between the Python harness and the Lean model
@@ -264,6 +265,23 @@ def handle (S : Session) (toks : List String) : Session × String :=
   | ["CONSTFN"] => (S, String.intercalate " " (((List.finRange n).filter (isConstFn N)).map fun i => toString i.val))
   | ["TT"] => (S, String.intercalate " " ((List.finRange n).map fun i =>
       String.mk ((allStates n).map fun s => if N.f i s then '1' else '0')))
+  | ["DEPS", sp] => match parseSpace n sp with
+    | some p =>
+      let es := (List.finRange n).flatMap fun u => (List.finRange n).flatMap fun v =>
+        (if depB N p u v false then [s!"{u.val}>{v.val}:+"] else []) ++ (if depB N p u v true then [s!"{u.val}>{v.val}:-"] else [])
+      (S, String.intercalate " " es)
+    | none => bad
+  | ["NFVSCERT", sp, nf, ranks, cols] => match parseSpace n sp with
+    | some p =>
+      let rs := (ranks.splitOn ",").filterMap (·.toNat?)
+      if rs.length != n || cols.length != n then bad else
+      let c : NCert n := { rank := fun i => rs.getD i.val 0, col := fun i => cols.toList.getD i.val '0' == '1' }
+      let nfvs := parseFins n nf
+      (S, if checkNfvs N p nfvs c then "OK" else
+        match badEdge N p nfvs c with
+        | some (u, v) => s!"FAIL {u.val} {v.val}"
+        | none => "FAIL")
+    | none => bad
   | ["FLIPTT", mask] =>
     -- truth tables of the syntactically re-encoded network `flipExprs` (C17, `ofExprs_flipExprs`)
     if mask.length != n then bad else
